@@ -149,7 +149,21 @@ pub fn err_verdict(kind: String) -> Value {
 /// Everything `datafile::Reader` (file.rs) exposes, on the file at `path`.
 pub fn observe_file(path: &Path, probes: &[(u16, u16)]) -> Value {
     stage("open");
-    let mut r = match df::Reader::open(path) {
+    observe_reader(df::Reader::open(path), probes)
+}
+
+/// The same through `datafile::Reader::new(File)`: the datafile starts at the current offset of
+/// the handle (`prefix` bytes of other content precede it in the file at `path`).
+pub fn observe_file_at(path: &Path, prefix: u64, probes: &[(u16, u16)]) -> Value {
+    use std::io::{Seek, SeekFrom};
+    stage("open");
+    let mut f = std::fs::File::open(path).expect("harness: open scratch file");
+    f.seek(SeekFrom::Start(prefix)).expect("harness: seek");
+    observe_reader(df::Reader::new(f), probes)
+}
+
+fn observe_reader(r: Result<df::Reader, df::Error>, probes: &[(u16, u16)]) -> Value {
+    let mut r = match r {
         Ok(r) => r,
         Err(e) => return err_verdict(file_err_kind(&e)),
     };
@@ -373,6 +387,9 @@ pub fn run_guarded<F: FnOnce() -> Value>(f: F) -> Obs {
     }
 }
 
+/// foreign content in front of an embedded datafile (odd length on purpose)
+pub const PREFIX: &[u8] = b"\x89embed\n";
+
 struct Replayer {
     path: PathBuf,
     seen: HashSet<u64>,
@@ -468,7 +485,12 @@ impl Replayer {
         let path = self.path.clone();
         let o1 = run_guarded(|| observe_file(&path, &probes));
         let o2 = run_guarded(|| observe_raw(&bytes, &probes));
-        for (flavour, o) in [("file", o1), ("raw", o2)] {
+        // embedded: 7 foreign bytes in front, opened through Reader::new(File) at offset 7
+        let mut emb = PREFIX.to_vec();
+        emb.extend_from_slice(&bytes);
+        std::fs::write(&self.path, &emb).unwrap();
+        let o3 = run_guarded(|| observe_file_at(&path, PREFIX.len() as u64, &probes));
+        for (flavour, o) in [("file", o1), ("raw", o2), ("offset", o3)] {
             if let Some(p) = o.panic {
                 self.n_panic += 1;
                 writeln!(
